@@ -501,4 +501,46 @@ Fixpoint pair_after (v : variant) (p : pair) (ops : list op) : option pair :=
       end
   end.
 
+
+(* ------------------------------------------------------------------ *)
+(* A session: several streams created by ONE factory value             *)
+(* ------------------------------------------------------------------ *)
+
+(* AsStreamProcessorFactory returns a closure that h2 calls once per stream
+   (h2.go: streamProcessors.create); everything the adapters keep -- the
+   [enabled] flag, the encodings, the reassembly state -- is allocated inside
+   that closure, so each stream has its own [pair].  A session state maps a
+   stream index to its pair and whether that stream's script has stopped on
+   an error.  Ops of different streams arrive interleaved. *)
+Definition sess := nat -> pair * bool.
+
+Definition sess0 : sess := fun _ => (pair0, false).
+
+Definition upd (k : nat) (x : pair * bool) (ss : sess) : sess :=
+  fun j => if Nat.eqb j k then x else ss j.
+
+(* per executed op: the stream it belongs to and the calls it caused *)
+Fixpoint run_session (v : variant) (ss : sess) (sops : list (nat * op))
+  : option (list (nat * list oev)) :=
+  match sops with
+  | [] => Some []
+  | (k, o) :: r =>
+      if snd (ss k) then run_session v ss r
+      else
+        match op_step v (fst (ss k)) o with
+        | None => None
+        | Some (p1, out, cont) =>
+            match run_session v (upd k (p1, negb cont) ss) r with
+            | Some outs => Some ((k, out) :: outs)
+            | None => None
+            end
+        end
+  end.
+
+Definition ops_of (i : nat) (sops : list (nat * op)) : list op :=
+  map snd (filter (fun x => Nat.eqb (fst x) i) sops).
+
+Definition outs_of (i : nat) (outs : list (nat * list oev)) : list (list oev) :=
+  map snd (filter (fun x => Nat.eqb (fst x) i) outs).
+
 End Codec.
